@@ -436,8 +436,8 @@ func (s *Session) onRecord(resp *Response, req *Request) {
 }
 
 func (s *Session) onPlay(resp *Response, req *Request) (err error) {
-	if s.status == statusPlaying {
-		return
+	if s.status == statusPlaying { // 已在播放（如保活用的重复 PLAY）：仍需回复
+		return s.response(resp)
 	}
 
 	// 传输模式、会话模式判断
